@@ -8,6 +8,7 @@ import (
 	"os"
 	"os/exec"
 	"path/filepath"
+	"sort"
 	"strings"
 
 	textwire "github.com/textwire/textwire/v2"
@@ -66,7 +67,23 @@ func observe(out string, err error) string {
 
 func genDetCase(c *core.Ctx, i int) detCase {
 	r := c.Rng
-	switch i % 11 {
+	switch i % 12 {
+	case 11: // a data map with two to five entries that cannot be bound (unsupported kinds, nested ones, the reserved name)
+		bad := map[string]func() any{"ch": func() any { return make(chan int) }, "fn": func() any { return func() {} }, "cx": func() any { return complex(1, 2) },
+			"nested": func() any { return map[string]any{"ok": 1, "deep": []any{make(chan string)}} }, "loop": func() any { return 1 }, "Ch": func() any { return make(chan bool) },
+			"up": func() any { return uintptr(7) }, "st": func() any { return struct{ F func() }{} }}
+		names := []string{"ch", "fn", "cx", "nested", "loop", "Ch", "up", "st"}
+		r.Shuffle(len(names), func(a, b int) { names[a], names[b] = names[b], names[a] })
+		names = names[:2+r.Intn(4)]
+		sort.Strings(names)
+		src := []string{"plain text", "{{ a }}{{ z }}", "@each(v in [1]){{ loop.index }}@end"}[r.Intn(3)]
+		return detCase{map[string]any{"source": src, "unbindable_data_entries": names}, func(c *core.Ctx) string {
+			data := map[string]any{"a": 1, "z": "last", "m": map[string]any{"k": 1}}
+			for _, n := range names {
+				data[n] = bad[n]()
+			}
+			return observe(textwire.EvaluateString(src, data))
+		}}
 	case 10: // template names that differ only in case, looked up under each spelling and under spellings no file has
 		names := []string{"Home", "HOME", "home", "hOmE", "sub/Page", "sub/PAGE", "Sub/page"}
 		r.Shuffle(len(names), func(a, b int) { names[a], names[b] = names[b], names[a] })
